@@ -199,6 +199,9 @@ def case_law(case):
     d, N = case["dim"], case["mode_no"]
     acc = np.zeros(d)
     acc2 = np.zeros(d)
+    u1 = np.zeros(d)
+    u2 = np.zeros((d, d))
+    u22 = np.zeros((d, d))
     n = 0
     for s in range(case["seed0"], case["seed0"] + case["nseeds"]):
         m = getattr(gs, case["cls"])(dim=d, var=1.0, len_scale=2.0, **OPTS.get(case["cls"], {}))
@@ -206,6 +209,11 @@ def case_law(case):
         k = np.array(g._cov_sample)
         proj = -k * k[0][None, :] / (k * k).sum(axis=0)[None, :]
         proj[0] += 1.0
+        u = k / np.sqrt((k * k).sum(axis=0))[None, :]  # unit wave vectors
+        u1 += u.sum(axis=1)
+        uu = u[:, None, :] * u[None, :, :]
+        u2 += uu.sum(axis=2)
+        u22 += (uu**2).sum(axis=2)
         p2 = proj**2
         acc += p2.sum(axis=1)
         acc2 += (p2**2).sum(axis=1)
@@ -221,6 +229,12 @@ def case_law(case):
     sig = np.sqrt(var / n)
     for i in range(d):
         r.true("component variances split as implied by projecting an isotropic spectrum (pooled direction average within 6 sigma)", abs(mean[i] - expect[i]) <= 6 * sig[i], info={"mean": float(mean[i]), "expected": float(expect[i]), "sigma": float(sig[i])}, comp=i, cls=case["cls"], dim=d)
+    # the directions themselves: first and second moments of a uniform direction (E u = 0, E u u^T = I / d)
+    ex = {"cls": case["cls"], "dim": d, "mode_no": N}
+    r.true("mean wave-vector direction == 0 (6 sigma)", bool(np.all(np.abs(u1 / n) <= 6 * math.sqrt(1.0 / d / n))), info=(u1 / n).tolist(), **ex)
+    m2 = u2 / n
+    s2 = np.sqrt(np.maximum(u22 / n - m2**2, 1e-12) / n)
+    r.true("second moments of the wave-vector direction == identity / dim (6 sigma, every entry)", bool(np.all(np.abs(m2 - np.eye(d) / d) <= 6 * s2 + 1e-12)), info=m2.tolist(), **ex)
     r.close("sum of the split == E|p|^2 = 1 - E[k_1^2/k^2] = (d-1)/d", mean.sum(), (d - 1) / d, rtol=0, atol=6 * float(np.sqrt((sig**2).sum())) + 1e-12, cls=case["cls"], dim=d)
     return r.done(outcome=[round(float(x), 6) for x in mean])
 
@@ -260,7 +274,8 @@ def run(chk):
                         continue
                     hc.append({"cls": cls, "dim": d, "seed": 5 + 32 * seed, "hist": list(hist)})
     chk.run("history", case_history, hc, rule="model x dim x every history of length <= 2 (thorough 3) over {call, mode_no := 4 | 16 (from 8), model.dim := 2 | 3 in place, model.len_scale in place, model re-assignment, mean velocity, seed}: the object was used before; field equals a freshly built generator with the final settings and is divergence-free", chunk=8, max_skip_frac=0.5)
-    lc = [{"cls": c, "dim": d, "mode_no": 64, "seed0": 64 * seed, "nseeds": 32 if tier == "quick" else 256} for d in (2, 3) for c in (["Gaussian", "Exponential"] if tier == "quick" else ["Gaussian", "Exponential", "Matern", "Rational"])]
-    chk.run("direction_law", case_law, lc, rule="complete seed window (32 quick / 256 thorough seeds x 64 modes): pooled average of the squared projector components against (3/8, 1/8) in 2-D and (8/15, 1/15, 1/15) in 3-D with 6-sigma acceptance", nproc=8)
+    lc = [{"cls": c, "dim": d, "mode_no": N_, "seed0": 64 * seed, "nseeds": (32 if tier == "quick" else 256) * 64 // N_} for d in (2, 3) for c in ["Gaussian", "Exponential"] for N_ in (4, 16, 63)]
+    lc += [{"cls": c, "dim": d, "mode_no": 64, "seed0": 64 * seed, "nseeds": 32 if tier == "quick" else 256} for d in (2, 3) for c in (["Gaussian", "Exponential"] if tier == "quick" else ["Gaussian", "Exponential", "Matern", "Rational"])]
+    chk.run("direction_law", case_law, lc, rule="complete seed window (32 quick / 256 thorough seeds x 64 modes; also 4, 16 and 63 modes per generator with correspondingly more seeds): pooled average of the squared projector components against (3/8, 1/8) in 2-D and (8/15, 1/15, 1/15) in 3-D with 6-sigma acceptance", nproc=8)
     chk.assume("wave vectors are read from the generator's documented sample array; configurations whose design matrix of modes is ill conditioned on the point set (nearly coincident wave vectors, |k| > 20) are skipped by a counted guard")
     chk.assume("the variance split is an exact per-seed identity plus a statistical statement about the sampled directions over a complete, finite seed window (6 sigma: false-alarm probability per comparison < 2e-9)")
